@@ -1,6 +1,7 @@
 import F3.Proofs.InstanceDecision
 import F3.Proofs.ParticipantInv
 import F3.Props.C08
+import F3.Proofs.DecisionCert
 /-!
 # C03 — every reported decision is a self-contained, verifiable finality proof (model part)
 
@@ -159,5 +160,143 @@ example : POpsValid exTbl exPOps := by
   rcases hop with rfl | rfl | rfl | rfl <;> simp [MsgOk, exTbl, Table.power]
 
 end ParticipantAPI
+
+/-! ## The decision is a finality certificate the validator accepts (C03 ∘ C04)
+
+`F3.Props.C04.honest_cert_accepted` ASSUMES what consensus delivers (members, quorum, aggregate, delta,
+commitment). Here those hypotheses are discharged from `DecisionOK` — i.e. from what the instance model
+provably reports — so that "certificates produced by consensus are always accepted" is a statement about
+the decisions of the consensus model, not about certificates assumed to be well made. What remains as
+hypotheses is the environment the instance model does not contain:
+
+* `TablesAgree tbl t` — the two models talk about the same power table (same ids per index; scaling the
+  raw powers of the certificate model's table gives the instance table's scaled powers);
+* both tables are well-formed (`WF`: distinct ids, positive powers, keys) and the supplemental data commits
+  to the next table (built into `decisionCert`: `pt = CID (canon nt)`, `delta = makeDiff t nt`);
+* the decided chain is not bottom and is a well-formed `ECChain` under the tipset interning `tipOf`
+  (validity, C02: a decided value is a prefix of an honest proposal, and proposals are validated chains),
+  and starts at the base the validator expects (`base = none`: no constraint).
+
+See `F3/Proofs/DecisionCert.lean` for the bridge between the two symbolic signature models (`aggOf`) and
+the assumption on the real scheme that acceptance rests on (correctness of aggregation — not
+unforgeability). -/
+section Certificate
+open F3.Certs F3.DecisionCert
+
+/-- **Consensus decisions are accepted as certificates.** Let `d` be a decision satisfying `DecisionOK V tbl d`
+(`V x c`: a validly signed DECIDE vote of `x` for `c` exists). The certificate assembled from it for instance
+`inst` — chain `d.value`, the instance's supplemental data committing to `nt`, signers `d.signers`, the
+aggregate of exactly those signers over the DECIDE payload of `d.value`, delta `makeDiff t nt` — is accepted
+by `ValidateFinalityCertificates` against `t` from instance `inst` (with the expected base, if any), which
+then reports instance `inst + 1`, the finalized suffix and the table `nt`; and its aggregate is backed:
+every signature in it is the DECIDE vote, for exactly `d.value`, of the member of `t` at that index. -/
+theorem consensus_decision_certificate_accepted (V : Pid → Chain → Prop) (tbl : F3.Instance.Table) (d : Just)
+    (hok : DecisionOK V tbl d)
+    (net inst comm : Nat) (tipOf : Nat → Tip) (t nt : F3.Certs.Table) (base : Option Tip)
+    (hag : TablesAgree tbl t) (ht : WF t) (hnt : WF nt)
+    (hne : d.value ≠ []) (hcv : chainValid (d.value.map tipOf) = true)
+    (hbase : ∀ b, base = some b → ∃ h, (d.value.map tipOf).head? = some h ∧ Tip.eq b h = true) :
+    validateCerts net t inst base [decisionCert net inst comm tipOf t nt d] =
+        ⟨u64 (inst + 1), (d.value.map tipOf).tail, canon nt, none⟩ ∧
+      Backed (fun x => V x d.value) t (decisionCert net inst comm tipOf t nt d).sig :=
+  ⟨decisionCert_accepted hok net inst comm tipOf t nt base hag ht hnt hne hcv hbase,
+    decisionCert_backed hok net inst comm tipOf t nt hag⟩
+
+/-- The same from a run of the instance model: whatever validated messages are delivered in whatever
+order, IF the instance terminates with a decision, the certificate assembled from it is accepted. -/
+theorem instance_decision_certificate_accepted (cfg : Cfg) (tbl : F3.Instance.Table) (input : Chain) (ops : List Op)
+    (hops : OpsValid tbl ops) (d : Just)
+    (hd : (run (init cfg tbl input) ops).1.termination = some d)
+    (net inst comm : Nat) (tipOf : Nat → Tip) (t nt : F3.Certs.Table) (base : Option Tip)
+    (hag : TablesAgree tbl t) (ht : WF t) (hnt : WF nt)
+    (hne : d.value ≠ []) (hcv : chainValid (d.value.map tipOf) = true)
+    (hbase : ∀ b, base = some b → ∃ h, (d.value.map tipOf).head? = some h ∧ Tip.eq b h = true) :
+    validateCerts net t inst base [decisionCert net inst comm tipOf t nt d] =
+        ⟨u64 (inst + 1), (d.value.map tipOf).tail, canon nt, none⟩ ∧
+      Backed (fun x => DecideVoted ops x d.value) t (decisionCert net inst comm tipOf t nt d).sig :=
+  consensus_decision_certificate_accepted _ tbl d (decision_wellformed cfg tbl input ops hops d hd)
+    net inst comm tipOf t nt base hag ht hnt hne hcv hbase
+
+/-- … and at the participant API (`ReceiveMessage` / `ReceiveAlarm`, any drain order of the pre-start queue). -/
+theorem participant_decision_certificate_accepted (cfg : Cfg) (tbl : F3.Instance.Table) (input : Chain)
+    (order : List Pid) (ops : List POp) (hops : POpsValid tbl ops) (d : Just)
+    (hd : (prun order (pinit cfg tbl input) ops).1.inst.termination = some d)
+    (net inst comm : Nat) (tipOf : Nat → Tip) (t nt : F3.Certs.Table) (base : Option Tip)
+    (hag : TablesAgree tbl t) (ht : WF t) (hnt : WF nt)
+    (hne : d.value ≠ []) (hcv : chainValid (d.value.map tipOf) = true)
+    (hbase : ∀ b, base = some b → ∃ h, (d.value.map tipOf).head? = some h ∧ Tip.eq b h = true) :
+    validateCerts net t inst base [decisionCert net inst comm tipOf t nt d] =
+        ⟨u64 (inst + 1), (d.value.map tipOf).tail, canon nt, none⟩ ∧
+      Backed (fun x => DecideVotedP ops x d.value) t (decisionCert net inst comm tipOf t nt d).sig :=
+  consensus_decision_certificate_accepted _ tbl d
+    (decision_wellformed_participant cfg tbl input order ops hops d hd)
+    net inst comm tipOf t nt base hag ht hnt hne hcv hbase
+
+/-- the accepted certificate is a valid one in the sense of the specification: in particular signed by
+DISTINCT members holding two thirds of `t` -/
+theorem consensus_decision_certificate_valid (V : Pid → Chain → Prop) (tbl : F3.Instance.Table) (d : Just)
+    (hok : DecisionOK V tbl d)
+    (net inst comm : Nat) (tipOf : Nat → Tip) (t nt : F3.Certs.Table) (base : Option Tip)
+    (hag : TablesAgree tbl t) (ht : WF t) (hnt : WF nt)
+    (hne : d.value ≠ []) (hcv : chainValid (d.value.map tipOf) = true)
+    (hbase : ∀ b, base = some b → ∃ h, (d.value.map tipOf).head? = some h ∧ Tip.eq b h = true) :
+    F3.Spec.Certs.CertValid net t inst base (decisionCert net inst comm tipOf t nt d) (canon nt) := by
+  have hacc := (consensus_decision_certificate_accepted V tbl d hok net inst comm tipOf t nt base hag ht hnt
+    hne hcv hbase).1
+  obtain ⟨s', hrun, _, _, htab⟩ := F3.Props.C04.validate_sound net t inst base _ (by rw [hacc])
+  cases hrun with
+  | cons hv hrest =>
+    cases hrest
+    have := htab (by simp)
+    rw [hacc] at this
+    simp only [F3.Spec.Certs.advance] at this
+    rw [this]
+    exact hv
+
+/-! ### Non-vacuity: the whole pipeline on concrete data
+
+A three-member table with raw powers 30 : 20 : 10 (scaled 32767, 21845, 10922 of 65534); members 1 and 2
+send DECIDE for the chain `[7, 8]`; the instance terminates with signers `[0, 1]`; the certificate assembled
+from that decision for instance 5 (next table: member 2 leaves, member 4 joins) is accepted from base
+tipset 7 and moves the validator to instance 6 and the next table. -/
+namespace CertEx
+def tblI : F3.Instance.Table := { entries := [(1, 32767), (2, 21845), (3, 10922)] }
+def tC : F3.Certs.Table := [⟨1, 30, 7⟩, ⟨2, 20, 8⟩, ⟨3, 10, 9⟩]
+def ntC : F3.Certs.Table := [⟨1, 30, 7⟩, ⟨3, 15, 9⟩, ⟨4, 5, 6⟩]
+/-- tipset id ↦ tipset (epoch = id, key = id, lengths within the limits) -/
+def tipOf (n : Nat) : Tip := ⟨n, n, 8, 1, 38, 0⟩
+def dec : Just := { round := 0, phase := .decide, value := [7, 8], signers := [0, 1] }
+end CertEx
+
+example : (run (init exCfg CertEx.tblI [7, 8]) exOps).1.termination = some CertEx.dec := by decide
+
+example : OpsValid CertEx.tblI exOps := by
+  intro op hop
+  simp only [exOps, List.mem_cons, List.mem_nil_iff, or_false] at hop
+  rcases hop with rfl | rfl | rfl <;> simp [MsgOk, CertEx.tblI, Table.power]
+
+example : TablesAgree CertEx.tblI CertEx.tC := by rw [← tablesAgreeB_iff]; decide
+
+example : WF CertEx.tC ∧ WF CertEx.ntC := by constructor <;> (rw [← wfB_iff]; decide)
+
+example : CertEx.dec.value ≠ [] ∧ chainValid (CertEx.dec.value.map CertEx.tipOf) = true ∧
+    (∀ b, some (CertEx.tipOf 7) = some b →
+      ∃ h, (CertEx.dec.value.map CertEx.tipOf).head? = some h ∧ Tip.eq b h = true) := by
+  refine ⟨by decide, by decide, ?_⟩
+  intro b hb
+  cases hb
+  exact ⟨CertEx.tipOf 7, rfl, by decide⟩
+
+-- … and the conclusion, computed: accepted, instance 6, suffix [8], the next table in canonical order
+example : validateCerts 1 CertEx.tC 5 (some (CertEx.tipOf 7))
+      [decisionCert 1 5 0 CertEx.tipOf CertEx.tC CertEx.ntC CertEx.dec] =
+    ⟨6, [CertEx.tipOf 8], canon CertEx.ntC, none⟩ := by decide
+
+-- the hypotheses matter: the same decision against a table in which member 2 has less power is no quorum
+example : (validateCerts 1 [⟨1, 30, 7⟩, ⟨2, 1, 8⟩, ⟨3, 40, 9⟩] 5 none
+      [decisionCert 1 5 0 CertEx.tipOf [⟨1, 30, 7⟩, ⟨2, 1, 8⟩, ⟨3, 40, 9⟩] CertEx.ntC CertEx.dec]).err =
+    some .noQuorum := by decide
+
+end Certificate
 
 end F3.Props.C03
